@@ -21,6 +21,25 @@ chk("C15", "fault_enumeration", "runtime monitoring: enumerated field corruption
     "Every GPT header/entry field x boundary values x {primary, backup} x {stale CRC, recomputed CRCs}, all pairs of the size-determining fields, truncated devices, every MBR byte, and seeded random images are read by gpt.Read, mbr.Read and partition.Read inside worker children; panics, fatal deaths (attributed via the case journal), CPU budget, TotalAlloc and read volume are monitored; any returned table is validated against an independent parser's view of the copy it came from.",
     "Allocation measured by runtime.MemStats.TotalAlloc deltas with bound 4*device+1MiB; worker address space capped at 24 GiB; quick tier samples a tenth of the field pairs (thorough enumerates all).")
 
+chk("C01", "exploration", "runtime monitoring: outcome-driven reference-tree oracle over generated operation histories (live, same handle, re-opened image)",
+    "Operation histories (seeded random, fill/release/refill to ENOSPC, root-directory exhaustion, all histories of length <=3/4 over a 12-call alphabet) run through the real FAT12/16/32 API on an instrumented sparse store; after every call all listings and file contents are compared with an in-memory tree that applied the accepted calls, live, through the writing handle and through a fresh fatNN.Read of the bytes; a refused call must leave every other path unchanged; bytes accepted per refill cycle must not shrink.",
+    "Names come from the property's legal-name domain; a file with an open handle is only modified through that handle (two independent writers on one file are not driven); listing order, timestamps and short-name spellings are not compared.")
+chk("C03", "exploration", "runtime monitoring: online range guard on every WriteAt of an instrumented PRF-filled store + guard-byte re-verification",
+    "Every WriteAt reaching the backing store is range-checked while FAT/ext4 volumes are created, modified and filled to no-space, iso9660/squashfs images are finalized (trees smaller and larger than the range) and GPT/MBR tables are written, at start offsets up to beyond 4 GiB; guard bytes are a non-zero PRF of the offset and are re-verified afterwards.",
+    "A write outside the range counts only if it changes a byte (identical rewrites are counted as benign). Partition-content streaming is covered by C13.")
+chk("C04", "exploration", "runtime monitoring: outcome-driven reference-tree oracle over generated operation histories on ext4 (live and re-opened), bounded read loops",
+    "Seeded histories (mkdir, create, writes that extend/overlap/leave gaps, multi-step appends, symlinks 1..4095 bytes, remove, chmod/chown/chtimes, invalid calls, open handles, fill/remove/refill) run through the real ext4 API for 1/2/4 KiB blocks, with/without journal and metadata checksums, single/multi group and non-zero start; all listings, contents, link targets and changed attributes are compared with a reference tree live and after ext4.Read of the bytes.",
+    "Rename and the truncating open are outside the statement for ext4; configurations Create refuses are counted, not judged.")
+chk("C05", "exploration", "runtime monitoring with an independent implementation as oracle: e2fsck -f -n after Create and after every call, debugfs extraction compared with the written bytes",
+    "ext4.Create over a grid of accepted parameter sets and C04 histories on real sparse image files; the reference checker e2fsck must exit 0 right after Create and after every call (accepted or refused), and debugfs must extract exactly the bytes written.",
+    "Trusts e2fsprogs 1.47.0. Configuration-level defects of Create are keyed by the e2fsck complaint class and the feature/parameter predicate and listed as known findings; histories are driven on the configurations that are clean after Create.")
+chk("C08", "exploration", "runtime monitoring: independent on-disk structure checker (fatck) run on the raw bytes after Create and after every call",
+    "The C01 history generators (incl. remove, rename-over, truncate, directory growth, refused calls, fill/refill) run on FAT12/16/32 volumes across the cluster-size table boundaries up to 33 GiB sparse and with 4096-byte sectors; after Create and after every call the raw volume bytes are parsed by an independent checker: boot sector vs range, FAT32 backup boot sector and FSInfo, identical FAT copies, chains in range/terminated/acyclic/long enough, no cross-links, no lost clusters.",
+    "Trusts fatck (written from the Microsoft specification, calibrated on hand-made volumes). Rules outside the statement (chains longer than needed, '..' cluster value, LFN order) are recorded, never reported.")
+chk("C10", "exploration", "runtime monitoring: shadow-cursor oracle (bytes.Reader semantics) over seeded Read/Seek/Close sequences on handles of every filesystem",
+    "Images of known files with sizes around the unit boundaries are built by the library for fat12/16/32, ext4, iso9660 (plain/Rock Ridge/Joliet) and squashfs (fragments/no fragments/gzip); seeded sequences of Read (sizes 0..1 MiB) and Seek (all whences, negative and past-EOF targets) then Close/Read/Seek are checked call by call against a shadow cursor over the known bytes.",
+    "Short reads are accepted if they make progress; both EOF conventions of io.Reader are accepted.")
+
 props = [json.loads(l)['id'] for l in open('/verif/properties.jsonl')]
 pending_reason = "check not built yet (work in progress in the order of DESIGN.md §9); runtime monitoring applies to this property"
 hooks_commits = []
